@@ -230,6 +230,12 @@ impl DB {
         VersionSet::log_and_apply(&mut guard, &mut change_manifest).is_ok()
     }
 
+    /// Verification hook: request a manual compaction of the whole key range of `level` and wait for it (private
+    /// `force_level_compaction`).
+    pub fn force_level_compaction_for_verif(&self, level: usize) {
+        self.force_level_compaction(level, &(None..None));
+    }
+
     /// Verification hook: number of level-0 files of the current version.
     pub fn num_level_zero_files_for_verif(&self) -> usize {
         self.guarded_fields.lock().version_set.num_files_at_level(0)
